@@ -2177,10 +2177,15 @@ def _config_str(
 
   import_manager = ImportManager(_IMPORTS)
   if import_manager.dynamic_registration:
-    for _, selector in configuration_object:
-      import_manager.require_configurable(_REGISTRY[selector])
-    for reference in iterate_references(configuration_object):
-      import_manager.require_configurable(reference.configurable)
+    # Add the required imports in a canonical order: which of two colliding
+    # module names gets re-aliased must not depend on the order in which the
+    # bindings happened to be made.
+    required = [_REGISTRY[selector] for _, selector in configuration_object]
+    required.extend(
+        reference.configurable
+        for reference in iterate_references(configuration_object))
+    for configurable_ in sorted(required, key=lambda c: c.selector):
+      import_manager.require_configurable(configurable_)
 
   # Build the output as an array of formatted Gin statements. Each statement may
   # span multiple lines. Imports are first, followed by macros, and finally all
